@@ -825,10 +825,9 @@ class EQLTranslator:
         # determines the ON clause, while we control aliasing of the right side
         self.sql_query = self.sql_query.join(aliased_target, relationship_attr)
 
-        # Record both the logical path and the table as joined to avoid duplicates
+        # Record the logical path as joined to avoid duplicates. The table itself is not in the statement: what was
+        # joined is an alias that stands for this path, a variable of the same class still needs a JOIN of its own.
         self.join_manager.add_path_join(dao_class, attribute_name, aliased_target)
-        # Track underlying table class as joined; alias class type differs but table is the same
-        self.join_manager.add_table_join(target_dao)
 
         return aliased_target
 
